@@ -54,8 +54,13 @@ def match_known(prop, violation, kf=None):
     return None
 
 
+def out_root():
+    # selftest redirects evidence/replay output so that runs on mutated scratch trees never touch /verif/evidence
+    return os.environ.get('VERIF_OUT', VERIF)
+
+
 def write_replay(prop, n, payload):
-    d = ensure_dir(os.path.join(VERIF, 'replay'))
+    d = ensure_dir(os.path.join(out_root(), 'replay'))
     p = os.path.join(d, '%s-%s.json' % (prop, n))
     with open(p, 'w') as f:
         json.dump(payload, f, indent=1, default=str)
@@ -63,7 +68,7 @@ def write_replay(prop, n, payload):
 
 
 def write_evidence(prop, tier, level, coverage, assumptions, wall_s, violations, extra=None):
-    d = ensure_dir(os.path.join(VERIF, 'evidence'))
+    d = ensure_dir(os.path.join(out_root(), 'evidence'))
     ev = dict(property_id=prop, tier=tier, seed=seed(), level=level, coverage=coverage,
               assumptions=assumptions, wall_s=round(wall_s, 2), violations=violations)
     if extra:
